@@ -169,7 +169,10 @@ def run(tier: str) -> int:
     hists = gen_histories()
     chk.extra["tlc_histories_available"] = len(hists)
     pick = calcheck.sample_scripts(hists, 140 if tier == "quick" else len(hists), rng)
-    known = {b: ckpt.Known(["A", "B"], b) for b in ("json", "sqlite")}
+    known = {b: ckpt.Known(["A", "B", "A2"], b) for b in ("json", "sqlite")}
+    # histories in which two runs share rows without being prefixes of each other, always included
+    shared = [hh for hh in hists if {"A", "A2"} <= {r for r, _ in hh}]
+    pick = pick + calcheck.sample_scripts(shared, 40 if tier == "quick" else 0, rng)
     results = [run_history(hh, known) for hh in pick]
     doc = {"traces": [{"ev": [_tl(e) for e in r["ev"]]} for r in results]}
     res = tlc.validate("CheckpointTrace", "CheckpointTrace.cfg", doc, chunk=400)
@@ -235,7 +238,7 @@ def _tl(e: dict) -> dict:
 def replay(rep: dict) -> int:
     chk = Check("C04", "quick")
     if "history" in rep:
-        known = {b: ckpt.Known(["A", "B"], b) for b in ("json", "sqlite")}
+        known = {b: ckpt.Known(["A", "B", "A2"], b) for b in ("json", "sqlite")}
         r = run_history(rep["history"], known)
         res = tlc.validate("CheckpointTrace", "CheckpointTrace.cfg", {"traces": [{"ev": [_tl(e) for e in r["ev"]]}]})
         chk.add_validation(res)
